@@ -1,11 +1,12 @@
 
 import threading
 import datetime
-from typing import Dict, List, Union
+from typing import Dict, List, Optional, Union
 
 import numpy as np
 import h5py
 
+from qmi.core.exceptions import QMI_RuntimeException
 from qmi.core.thread import QMI_Thread
 
 
@@ -24,8 +25,17 @@ class _HDF5RecorderThread(QMI_Thread):
         self._recordings: Dict[str, List[np.ndarray]] = {}
         self._attributes: Dict[str, Dict[str, _AttributeValueType]] = {}
         self._condition = threading.Condition(threading.Lock())
+        self._exception: Optional[BaseException] = None
 
     def run(self) -> None:
+        try:
+            self._write_loop()
+        except BaseException as exc:
+            # Keep the error for close(): data recorded since the last successful write can not be stored any more.
+            self._exception = exc
+            raise
+
+    def _write_loop(self) -> None:
 
         HDF5_FILE_MODE = "a"  # open for read/write access, create file if it does not exist
         fo = None
@@ -147,9 +157,19 @@ class HDF5Recorder:
         self._recorder_thread.start()
 
     def close(self) -> None:
-        self._recorder_thread.shutdown()
-        self._recorder_thread.join()
+        """Write the remaining data and stop the recorder.
+
+        Raises:
+            QMI_RuntimeException: If the background thread failed to write the recorded data to the HDF5 file.
+        """
+        recorder_thread = self._recorder_thread
+        recorder_thread.shutdown()
+        recorder_thread.join()
         self._recorder_thread = None  # type: ignore
+        if recorder_thread._exception is not None:
+            raise QMI_RuntimeException(
+                "HDF5 recorder failed to write recorded data"
+            ) from recorder_thread._exception
 
     def record(self, dset_name: str, dset_values: np.ndarray) -> None:
         self._recorder_thread.record(dset_name, dset_values)
